@@ -85,6 +85,21 @@ hyp("C17", "eng_proto3", 180, 1500,
     "inotify + barrier) and then serves probe clients that touch every service and rule; daemon B starts fresh on new and serves the "
     "same probes; per-step outputs (serials masked, unconfigured '-' entries ignored, order of lines within a step ignored) and the "
     "'-1 ? config' report must be equal.  non-trivial = at least one real edit and probe output observed", PROTO_ASSUME)
+hyp("C18", "eng_log", 220, 2500,
+    "sequences of 1-4 logs sections over facilities {core, config, f1, f2, *, an unregistered name, case variants}, severity "
+    "expressions from the grammar (names in any case, comma lists, <, <=, =, >=, >, *) and deliberately malformed ones, single and "
+    "list destinations over 4 files; after every load one uniquely tokenised message per (facility, severity) pair (30 per load, "
+    "fatal ones in forked children) is emitted through the real logger and the files are read back: token in file iff the current "
+    "section maps (facility or *, severity) to it; every written line complete and attributed.  non-trivial = a range operator, "
+    ">=2 destinations and a reload that re-routes", COMMON_ASSUME + ["src/log.c + config.c linked unmodified into harness/logh.c"], needs=())
+hyp("C20", "eng_mod", 60, 800,
+    "the real daemon is run with -k on a generated modules ( ... ) list; six copies of one stub module read the dependency graph "
+    "from the environment, call module_depends() accordingly and log constructor begin/end, post-init and destructor events.  "
+    "Exhaustive: every digraph (self-loops included) on <=3 modules x every ordered non-empty list (thorough: + every DAG on 4 labelled "
+    "modules); random: Hypothesis DAGs / cyclic graphs / missing modules on 4-6 modules.  Oracle: DAG => exit 0, loaded set = "
+    "reachable set, exactly one of each event per module, dependency order of constructor ends and post-inits, reverse order of "
+    "destructors; cycle or missing module => non-zero exit and no 'appears valid'.  non-trivial = node of in-degree >=2, chain of "
+    "length >=3, or a graph that must be rejected", COMMON_ASSUME + ["stub modules are copies of harness/stubmod.c"], needs=("daemon",))
 CONF_ASSUME = COMMON_ASSUME + ["src/config.c, set.c, common.c, bitset.c linked unmodified into harness/confh.c; log_message is a capturing stub",
                               "LeakSanitizer off: parse-error paths leak the token being parsed (observation, not a memory error)"]
 hyp("C14", "eng_conf", 500, 5000,
@@ -167,6 +182,15 @@ def run_hyp(pid, tier, seed):
         raise vc.MachineryError("all workers failed:\n" + m["errors"][0])
     for e in m["errors"][:2]:
         sys.stderr.write("WORKER-ERROR (not a verdict):\n%s\n" % e)
+    extra = None
+    emod = importlib.import_module(p["module"])
+    if hasattr(emod, "extra_phase"):
+        extra = emod.extra_phase(pid, tier, seed)
+        m["evaluations"] += extra["evaluations"]
+        m["fails"].extend(f for f in extra["fails"] if f["sig"] not in known_sigs)
+        for k, v in extra["classes"].items():
+            m["classes"]["enum_" + k] = v
+        m["samples"].extend(extra["samples"][:2])
     flaky = 0
     seen_sigs = set()
     for f in m["fails"]:
@@ -203,6 +227,11 @@ def run_hyp(pid, tier, seed):
         "workers": p["workers"], "examples_per_worker": n,
         "worker_errors": len(m["errors"]),
     }
+    if extra:
+        cov["distinct_nontrivial"] += extra["nontrivial"]
+        cov["exhaustive"] = not violations
+        cov["exhaustive_scope"] = extra["exhaustive_scope"] + " (the Hypothesis part is sampling)"
+        cov["enumerated_cases"] = extra["evaluations"]
     vc.write_evidence(pid, tier, seed, "exploration", cov, t.s(), len(violations), p["assume"] + vc.tool_versions())
     print("%s %s: %d cases, %d distinct non-trivial, %d violation(s), %.1fs" % (
         pid, tier, cov["evaluations"], cov["distinct_nontrivial"], len(violations), t.s()))
